@@ -456,6 +456,38 @@ func memoKeys(rep *concReport) {
 			rep.add("memokey-static-struct", s == "" && cnt == 3, "calls=%d (want 3) %s", cnt, s)
 		}
 	}
+	// unexported fields: a hashable one does not stand in the way of memoizing (bind ok, one call per value); an
+	// interface-typed one cannot be inspected, so the provider is refused or calls through -- never a panic
+	{
+		type kPriv struct {
+			Name string
+			rev  int
+		}
+		var cnt int
+		var inv6 func(kPriv) T3
+		err = nject.Sequence("K6", nject.Memoize(func(x kPriv) T3 { cnt++; return T3{Tag: uint64(cnt)} }), func(v T3) T3 { return v }).Bind(&inv6, nil)
+		if err != nil {
+			rep.add("memokey-unexported-hashable-field", false, "bind: %v", err)
+		} else {
+			s := guarded(5*time.Second, func() { inv6(kPriv{"a", 1}); inv6(kPriv{"a", 1}); inv6(kPriv{"a", 2}) })
+			rep.add("memokey-unexported-hashable-field", s == "" && cnt == 2, "calls=%d (want 2) %s", cnt, s)
+		}
+	}
+	{
+		type kPrivI struct {
+			Name  string
+			extra any
+		}
+		var cnt int
+		var inv7 func(kPrivI) T3
+		err = nject.Sequence("K7", nject.Memoize(func(x kPrivI) T3 { cnt++; return T3{Tag: uint64(cnt)} }), func(v T3) T3 { return v }).Bind(&inv7, nil)
+		if err != nil {
+			rep.add("memokey-unexported-interface-field", true, "refused: ok")
+		} else {
+			s := guarded(5*time.Second, func() { inv7(kPrivI{"a", []int{1}}); inv7(kPrivI{"a", []int{1}}) })
+			rep.add("memokey-unexported-interface-field", s == "", "calls=%d %s", cnt, s)
+		}
+	}
 }
 
 // ---- C08: concurrent inner() calls of a Parallel wrapper whose inner takes no arguments: what the providers below
